@@ -286,7 +286,7 @@ func runC03(x *core.Ctx) {
 			if pc.P == nil {
 				return
 			}
-			p := pc.P
+			p := gen.WireView(pc.P)
 			if p.Type == 8 || p.Type == 10 {
 				if len(p.Filters) == 0 {
 					return
